@@ -151,7 +151,7 @@ impl Check for C15 {
                     case.config_yaml = y;
                 }
                 // rules: code / payee captures, so that statement text reaches code and payee positions
-                case.config_yaml.push_str("rewrite:\n  - matcher:\n      payee: \"Debit Card (?P<code>\\\\S+) (?P<payee>.*)\"\n  - matcher:\n      payee: \"Migros\"\n    account: Expenses:Grocery\n");
+                crate::checks::import_common::push_rules(&mut case.config_yaml, "  - matcher:\n      payee: \"Debit Card (?P<code>\\\\S+) (?P<payee>.*)\"\n  - matcher:\n      payee: \"Migros\"\n    account: Expenses:Grocery\n");
                 let Ok((c, s)) = case.write(&dir) else {
                     rec.skip();
                     return;
